@@ -105,6 +105,31 @@ CLAIMED = {
              note="Trusted: as C06/C07/C09 (h5py selection, floats as reals, numpy less_equal/all). Descriptors are abstract in "
                   "_calc_data_slices (summaries of the three range_indices implementations, verified under C07). Tag.tagged_data, "
                   "MultiTag row selection (_calc_data_slices_mtag) and feature_data dispatch are NOT under contract.", ref="7 C08"),
+ "C03": dict(text="Partial: deductive proof over the abstract store that a container's length, positional indexing (negative indices "
+                  "normalised, IndexError exactly outside [-n, n)), lookup by id, lookup by name and membership (by key and, for "
+                  "entity objects, by identity) all describe the one creation-order sequence of its backend group, and that every "
+                  "legal name retrieves the entity linked under it - also a name that looks like an id (falls back to the name when "
+                  "no member carries that id).",
+             note="Assumed: h5py creation-order index / iteration order / link lookup (the H5Group lookup primitives enter as "
+                  "contracts over the abstract store), uuid4 freshness, handle construction (_inst_item). Creation paths (duplicate "
+                  "refusal before creation, id assignment) are under contract only for properties (C10); persistence of order "
+                  "across reopen is an HDF5 fact.", ref="7 C03"),
+ "C04": dict(text="Partial: deductive proof of what each delete hands to the sweeper (a plain entity: exactly its own id; a section / "
+                  "source: the id of every entity of its subtree as returned by the tree search, plus the source itself), always from "
+                  "the file root and exactly once; that removing an entry from a link list only unlinks it there (the sweeper is not "
+                  "involved); and of the sweeper's per-group step (loop invariant: EVERY member of the visited group whose id is to "
+                  "be deleted is unlinked, every other link anywhere is untouched).",
+             note="Assumed: h5py visititems reaches every group below the root and tolerates unlinking during the walk (delete_all's "
+                  "traversal), H5Group.delete / __delitem__ primitives; ownership of content is HDF5 reachability; completeness of "
+                  "the tree search is the bounded stand-in of C13. The metadata deleters are not under contract.", ref="7 C04"),
+ "C05": dict(text="Partial: deductive proof that a link list accepts an entity exactly when it is of the list's kind and IS (by "
+                  "identity - same id under its name) a member of the owning block's container, refuses everything else with the "
+                  "store untouched, and that the link created is the SAME HDF5 object as the original, filed under its id; that "
+                  "container membership of an entity object is by identity; that MultiTag positions / extents role links are the "
+                  "same object as the given array.",
+             note="Assumed: HDF5 hard links alias (one object, many paths); H5Group.create_link primitive; lazily created link-list "
+                  "groups are outside the contract domain. SourceLinkContainer.append (tree search with a lambda filter), dimension "
+                  "links and linked ticks/labels are NOT under contract.", ref="7 C05"),
 }
 NA_REASON = "check not built yet in this round (design in DESIGN.md section 7); will be claimed once its contracts discharge"
 checks, na = [], []
